@@ -471,8 +471,10 @@ func CompileRegexp(re *syntax.Regexp, config Config) (*Engine, error) {
 		})
 		literals = extractor.ExtractPrefixes(re)
 
-		// Build prefilter from prefix literals
-		if literals != nil && !literals.IsEmpty() {
+		// Build prefilter from prefix literals. A partial-coverage set leaves
+		// some alternation branches unrepresented: skipping to its candidates
+		// (in any engine) would miss their matches, so it cannot be a prefilter.
+		if literals != nil && !literals.IsEmpty() && !literals.IsPartialCoverage() {
 			builder := prefilter.NewBuilder(literals, nil)
 			pf = builder.Build()
 		}
